@@ -48,8 +48,9 @@ def pipe_bytes(fd):
 
 
 def readable(fd):
-    r, _, _ = select.select([fd], [], [], 0)
-    return bool(r)
+    p = select.poll()                     # not select.select: that one fails for descriptor numbers >= 1024
+    p.register(fd, select.POLLIN)
+    return bool(p.poll(0))
 
 
 def shrink(fd):
@@ -223,10 +224,7 @@ def run_b_real(so, RecTransport, qsize, steps):
                         "bit": "1" if pipe_bytes(r) > before else "0"})
     finally:
         o._SyncObj__raftState = 0
-        try:
-            o.destroy()
-        except Exception:   # noqa
-            pass
+        qc.close_node(o)                  # destroy + both ends of the notifier's pipe
     return out
 
 
@@ -296,8 +294,9 @@ def part_c(so, cap, writers, per_writer, t_end, lazy=False, stop_early=False):
 def run(ctx):
     t0 = time.time()
     so = qc.load(ctx)
+    fds = qc.fd_count()
     with qc.real_runtime(so):
-        return _run(ctx, so, t0)
+        return qc.fd_audit(_run(ctx, so, t0), fds)
 
 
 def _run(ctx, so, t0):
